@@ -24,6 +24,11 @@ A14 = ["CCO", "CC=O", "CC(=O)O", "O", "CCCl", "[H][H]", "Cl", "CC(C)=O", "CC(C)O
 MARKER_LEFT = ["CC(=O)OO", "CCO", "CC=O", "CCCl", "CC(=O)OO.[Na]Cl"]
 MARKER_RIGHT = ["CC(=O)O", "OO", "[H][H]", "O", "CC=O", "CC", "[Na]O"]
 
+# imbalances of three elements / two elements and a charge whose completion needs several rule compounds
+MULTI = ["CC(=O)N.[OH-].O>>CC(=O)O", "CC(=O)NC.[OH-].O>>CC(=O)O", "CC(=O)N.O.Cl>>CC(=O)O", "NC(=O)CCl.[OH-].O>>OCC(=O)O",
+         "CC(=O)N.[OH-]>>CC(=O)[O-]", "CS(=O)(=O)N.[OH-].O>>CS(=O)(=O)O", "CC(=O)SC.[OH-].O>>CC(=O)O", "NC(=O)N.O.O>>O=C=O",
+         "CC(=O)N.O.[Na+].[OH-]>>CC(=O)[O-].[Na+]", "ClC(=O)N.O.O>>O=C=O"]
+
 _VOCAB = None
 
 
@@ -175,6 +180,7 @@ def run(tier, seed):
     # marker family: molecules that spell like the pipeline's placeholders on the product side
     # next to a reactant-side or product-side completion
     rxns = pf.dedupe(rxns + [l + ">>" + a + "." + b for l in MARKER_LEFT for a in MARKER_RIGHT for b in MARKER_RIGHT])
+    rxns = pf.dedupe(rxns + MULTI)
     perm = 4 if tier == "thorough" else 3
     r = pmap("checks.c14:job", [(x, perm) for x in rxns], chunk=8, seed=seed, timeout=7200)
     n_cd = n_var = 0
@@ -189,7 +195,7 @@ def run(tier, seed):
     res.coverage = {
         "evaluations": len(rxns) + n_var,
         "distinct_nontrivial": n_var,
-        "rule": "all {} reactions of Rxn(A14{},2){} and of a marker family (peracid / alcohol / aldehyde / chloride >> every ordered pair of 7 product molecules incl. OO, [H][H], O); for each of the {} with a composition-determined baseline "
+        "rule": "all {} reactions of Rxn(A14{},2){} and of a marker family (peracid / alcohol / aldehyde / chloride >> every ordered pair of 7 product molecules incl. OO, [H][H], O) and of a family of multi-element / charged imbalances; for each of the {} with a composition-determined baseline "
                 "(input-balanced or rule-based) every variant of its spelling/order family is run: rooted, all atom "
                 "permutations (<= {} heavy atoms), kekulised, explicit-H and three atom-mapped spellings of one molecule "
                 "at a time, k-th spelling of all at once, all permutations of each side.  Non-trivial = distinct "
